@@ -62,10 +62,16 @@ def work_pipeline(job):
     from teaal.parse import Architecture, Bindings, Einsum, Format, Mapping
     from teaal.trans.hifiber import HiFiber
     spec = job["spec"]
-    y = spec_yaml(spec, True)
-    base = {"name": "pipeline/" + spec["name"], "concrete": True}
+    metrics = job.get("metrics", True)
+    y = spec_yaml(spec, metrics)
+    base = {"name": "pipeline/" + spec["name"] + ("" if metrics else "#plain"), "concrete": True}
+
+    def parse():
+        if metrics:
+            return [Einsum.from_str(y), Mapping.from_str(y), Architecture.from_str(y), Bindings.from_str(y), Format.from_str(y)]
+        return [Einsum.from_str(y), Mapping.from_str(y)]
     try:
-        objs = [Einsum.from_str(y), Mapping.from_str(y), Architecture.from_str(y), Bindings.from_str(y), Format.from_str(y)]
+        objs = parse()
         before = snapshot(objs)
         t1 = str(HiFiber(*objs))
     except (ValueError, KeyError, AssertionError, IndexError, AttributeError, TypeError, NotImplementedError) as ex:
@@ -82,13 +88,13 @@ def work_pipeline(job):
             problems.append("second compilation from the same objects emits different text")
     except Exception as ex:   # noqa
         problems.append("second compilation from the same objects raises %s: %s" % (type(ex).__name__, str(ex)[:120]))
-    fresh = [Einsum.from_str(y), Mapping.from_str(y), Architecture.from_str(y), Bindings.from_str(y), Format.from_str(y)]
+    fresh = parse()
     t3 = str(HiFiber(*fresh))
     if t3 != t1:
         problems.append("text after earlier compilations in this process differs from the first text")
     if problems:
         return dict(base, status="violation", confirmed=True, why="; ".join(problems),
-                    sig={"engine": "pipeline", "what": problems[0][:60]}, replay={"spec": spec})
+                    sig={"engine": "pipeline", "what": problems[0][:60]}, replay={"spec": spec, "metrics": metrics})
     return dict(base, status="ok")
 
 
@@ -105,6 +111,18 @@ def run(tier, seed):
         jobs.append({"kind": "ch", "name": "buffet/2-bindings/slice%d" % k, "func": "buffet", "role": "decide",
                      "timeout": 500 if tier == "quick" else 900, "env": {"CH_SLICE": k}})
     for s in integ.integration_specs(metrics_only=True):
+        jobs.append({"kind": "pipeline", "spec": s, "name": s["name"]})
+    # plain mode (Einsum + Mapping only): every shipped specification, spacetime members with and without slip, partitioned members
+    from .. import specgen
+    for s in integ.integration_specs():
+        jobs.append({"kind": "pipeline", "spec": s, "name": s["name"], "metrics": False})
+    st = specgen.f_st("quick", seed)
+    for s in [x for x in st if "/slip" in x["name"]][::9] + [x for x in st if "/slip" not in x["name"]][::37]:
+        jobs.append({"kind": "pipeline", "spec": s, "name": s["name"], "metrics": False})
+    for s in specgen.f_occ("quick", seed)[::53] + specgen.f_shape("quick", seed)[::97] + specgen.f_cascade("quick", seed)[::4]:
+        jobs.append({"kind": "pipeline", "spec": s, "name": s["name"], "metrics": False})
+    fm = specgen.f_metrics("quick", seed)
+    for s in [x for x in fm if "/mini" in x["name"] or "cascade3" in x["name"]][::7]:
         jobs.append({"kind": "pipeline", "spec": s, "name": s["name"]})
     res = runner.pmap(work, jobs)
     ch = [r for r in res if not r.get("concrete")]
@@ -129,7 +147,7 @@ def run(tier, seed):
 def replay(data):
     rp = data["replay"]
     if "spec" in rp:
-        r = work_pipeline({"spec": rp["spec"]})
+        r = work_pipeline({"spec": rp["spec"], "metrics": rp.get("metrics", True)})
         print(r.get("why") or "ok")
         return 1 if r["status"] == "violation" else 0
     from ..ch import components
